@@ -90,6 +90,18 @@ REGISTRY["C20"] = dict(
     explanation="Clauses of DESIGN.md §3 C20, decided on the MIR of grass::main and its closures in the current tree. NOT decided: clap's parsing, OS-level behaviour, equality of CLI and library output as executed.",
     assumptions=TRUSTED + ["E3: documented CLI flag -> Options builder map"],
 )
+REGISTRY["C09"] = dict(
+    module="c09",
+    level="other",
+    technique="static analysis: variant-pair matrix extraction from the two-level match of Value::eq / not_equals (symmetry and complement), HIR impl facts (no `ne` override), who-may-call rules on SassMap's entry vector, predicate-sensitive guard analysis for insert/visit_map",
+    claim=(
+        "Structural clauses: (a) the variant-pair matrix of Value::eq is symmetric and reflexive-capable, and Value::not_equals is never constant-true where == can be true; (b) no PartialEq impl of a value type overrides `ne`, "
+        "visit_bin_op maps Equal/NotEqual to eq/ne; (c) every key comparison in SassMap and index() is Value's ==/not_equals; (d) SassMap's vector is only pushed/retained/iterated and insert pushes only after the search missed; "
+        "(e) visit_map inserts only after the duplicate test and duplicates are Err. NOT decided: reflexivity/transitivity through fuzzy number comparison and unit conversion."
+    ),
+    explanation="Clauses C09-a..e of DESIGN.md §3, decided on MIR/HIR facts of the current tree. NOT decided: equivalence laws through fuzzy numeric comparison, values of comparisons.",
+    assumptions=TRUSTED,
+)
 
 UNBUILT = "check not built yet in this session (design in DESIGN.md §3); not claimed until its rules run clean on the pinned tree"
 NOT_APPLICABLE = {
